@@ -430,3 +430,9 @@ func vfC12cCommit(shape int) {
 func VF_C12_c_commit0() { vfC12cCommit(0) }
 func VF_C12_c_commit1() { vfC12cCommit(1) }
 func VF_C12_c_commit2() { vfC12cCommit(2) }
+
+// pre-states with a write plus a delete marker (3) and with a storage that is staged but was never written (4): in the
+// latter a reverted write is the ONLY thing that could make the storage "dirty" at commit, so a dirty flag (or a
+// re-put account state) that survives the revert shows up against the reference world
+func VF_C12_c_commit3() { vfC12cCommit(3) }
+func VF_C12_c_commit4() { vfC12cCommit(4) }
